@@ -238,7 +238,70 @@ def coexist_worker(ctx, job):
     return res
 
 
+def rewrite_crash_worker(ctx, job):
+    """(D) re-writing bytes that are already stored, killed at every file-system system call (and with every write
+    torn): at every instant the stored copy stays in place, byte-identical, and the key that maps to it resolves."""
+    import json as _json
+    from vlib import fsx
+    from checks.c03 import crash_points
+    res = V.new()
+    flavour, entry = job["flavour"], job["entry"]
+    side = "s" if flavour == "sync" else "a"
+    suf = "_sync" if side == "s" else ""
+    cache = ctx.path("c16x-cache")
+    fsutil.wipe(cache)
+    n, tag = 4097, 88
+    data = ref.gen(n, tag)
+    sri_ = ctx.sri("sha256", data)
+    wr.do_write(ctx.srv("sync"), cache, side="s", entry="oneshot", key="first", n=n, tag=tag)
+    init = fsutil.snapshot(cache)
+    g = {"gen": [n, tag]}
+    if entry == "oneshot":
+        prog = [{"op": "write" + suf, "cache": cache, "key": "second", "data": g}]
+    elif entry == "hash":
+        prog = [{"op": "write_hash" + suf, "cache": cache, "data": g}]
+    else:
+        h = {"ref": 0}
+        prog = [{"op": ("sw_" if side == "s" else "aw_") + "open", "cache": cache, "key": "second", "opts": {"size": n}}, {"op": "w_write_all", "h": h, "data": g}, {"op": "w_commit", "h": h}]
+    pf = ctx.path("prog-c16x.json")
+    with open(pf, "w") as fh:
+        _json.dump(prog, fh)
+
+    def run_one(cp):
+        fsutil.restore(cache, init)
+        spec = {"roots": [cache], "actors": [fsx.actor(flavour, "R", pf)], "timeout_ms": 20000}
+        if cp is not None:
+            spec["crash"] = cp
+        return fsx.run(spec, ctx.dir)
+
+    probe = run_one(None)
+    steps = [{"sys": s_["sys"], "len": s_["len"]} for s_ in probe["steps"] if s_.get("step") is not None]
+    cps = [c for c in crash_points(steps) if c["tear"] is None or c["tear"] in (0, 1, 2048, 4096)]
+    srv = ctx.srv("sync")
+    for cp in [None] + cps:
+        rep = run_one(cp)
+        res["evals"] += 1
+        res["distinct"].add(V.h("rewrite-crash", flavour, entry, repr(cp)))
+        replay = {"engine": "fsx", "mode": "crash", "scenario": "re-write of stored bytes via %s/%s" % (entry, flavour), "crash": cp}
+        V.outcome(res, "rewrite-crash:%s" % ("complete" if cp is None else "killed"))
+        for name, req in (("read_sync", {"op": "read_sync", "cache": cache, "key": "first"}), ("read_hash_sync", {"op": "read_hash_sync", "cache": cache, "sri": sri_})):
+            r = srv.call(req)
+            if not ("ok" in r and wr.data_matches(r["ok"], data)):
+                V.violation(res, "dedup:rewrite-killed:%s/%s:stored-copy-lost:%s" % (entry, side, classify(r)),
+                            "re-write of equal bytes killed at %s: %s of the earlier entry now gives %r" % (cp, name, r), replay)
+                break
+        snap = fsutil.snapshot(cache) or {}
+        files = [r_ for r_, e in snap.items() if r_.startswith(ref.CONTENT_DIR + "/sha256/") and e[0] == "f"]
+        if sorted(files) != [ref.content_rel(sri_)]:
+            V.violation(res, "dedup:rewrite-killed:%s/%s:content-file-set" % (entry, side), "after the kill the sha256 subtree holds %s" % files, replay)
+    fsutil.wipe(cache)
+    res["samples"].append({"kind": "rewrite-crash", "flavour": flavour, "entry": entry, "kill_points": len(cps)})
+    return res
+
+
 def worker(ctx, job):
+    if job["kind"] == "rewrite-crash":
+        return rewrite_crash_worker(ctx, job)
     return digest_worker(ctx, job) if job["kind"] == "digest" else coexist_worker(ctx, job)
 
 
@@ -252,6 +315,11 @@ def main(tier, seed=0):
             for algo in ref.ALGOS:
                 jobs.append({"kind": "digest", "flavour": flavour, "side": side, "algo": algo})
             jobs.append({"kind": "coexist", "flavour": flavour, "side": side})
+    for flavour in ("sync", "astd", "tok"):
+        for entry in ("oneshot", "hash", "session"):
+            if tier == "quick" and flavour == "tok" and entry != "oneshot":
+                continue
+            jobs.append({"kind": "rewrite-crash", "flavour": flavour, "entry": entry})
     # part A + C through run_check's machinery but without finishing: reuse its aggregation by calling it with a private prop name
     import vlib.run as R
     base = R.base_dir()
@@ -275,7 +343,8 @@ def main(tier, seed=0):
                       rule="(A) case = (flavour, side, algorithm, size, entry point): returned address vs hashlib / coreutils / xxhash-rust, one stored copy after 5 "
                            "writes of equal bytes; (B) BFS state = (canonical disk, model) over {write B under k1/k2 whole or chunked with declared size, one-shot, "
                            "write_hash, damage the copy} x algorithms x {sync, async}: file set under content-v2 = exactly one byte-identical file per (algorithm, bytes); "
-                           "(C) five algorithms side by side, each copy damaged in turn",
+                           "(C) five algorithms side by side, each copy damaged in turn; (D) re-write of stored bytes (one-shot / by address / session; sync, async-std, tokio) killed at every file-system "
+                           "system call: the stored copy stays in place and byte-identical, its key resolves",
                       technique="explicit-state breadth-first model checking of on-disk states plus bounded-exhaustive input enumeration, independent digest oracles",
                       assumptions=["xxh3 has no second implementation in this sandbox: compared with the xxhash-rust crate called directly"],
                       seed=seed, capped=capped_any, jobs_done=len(runs) + len(jobs), jobs_total=len(runs) + len(jobs), exhaustive=not capped_any)
